@@ -5,7 +5,7 @@ from common import Config, Job
 COST = {}
 
 
-def shards(cfg, workload, world, n, ops, seed, extra=(), timeout=600, env_extra=None, nshards_arg=False):
+def shards(cfg, workload, world, n, ops, seed, extra=(), timeout=1800, env_extra=None, nshards_arg=False):
     jobs = []
     for s in range(n):
         argv = [workload, f"seed={seed}", f"shard={s}", f"ops={ops}", f"world={world}"] + list(extra)
@@ -45,11 +45,11 @@ def history_plan(workload, tier, seed, features=(), native_ops=6000, miri_ops=60
             n = 8 if world == "main" else 4
             jobs += shards(dbg, workload, world, n, native_ops, seed, extra)
             jobs += shards(rel, workload, world, n, native_ops * 2, seed + 1000, extra)
-        jobs += shards(mdbg, workload, "main", 6, miri_ops, seed + 2000, extra, timeout=900, env_extra=menv)
-        jobs += shards(mrel, workload, "main", 6, miri_ops, seed + 3000, extra, timeout=900, env_extra=menv)
+        jobs += shards(mdbg, workload, "main", 6, miri_ops, seed + 2000, extra, timeout=2400, env_extra=menv)
+        jobs += shards(mrel, workload, "main", 6, miri_ops, seed + 3000, extra, timeout=2400, env_extra=menv)
         if "small" in worlds:
-            jobs += shards(mdbg, workload, "small", 2, miri_ops * 2, seed + 2500, extra, timeout=900, env_extra=menv)
-            jobs += shards(mrel, workload, "small", 2, miri_ops * 2, seed + 3500, extra, timeout=900, env_extra=menv)
+            jobs += shards(mdbg, workload, "small", 2, miri_ops * 2, seed + 2500, extra, timeout=2400, env_extra=menv)
+            jobs += shards(mrel, workload, "small", 2, miri_ops * 2, seed + 3500, extra, timeout=2400, env_extra=menv)
         jobs += shards(asan, workload, "main", 8, asan_ops, seed + 4000, extra, env_extra=aenv)
     else:
         for world in worlds:
